@@ -568,8 +568,13 @@ class KeyPath(formatting.Formattable):
         # Both are ints. Compare numerically so that KeyPath(2) < KeyPath(10).
         return comparison(self.key, other.key)
       if is_int_or_str(self.key) and is_int_or_str(other.key):
-        # One is a str; the other is an int or str. Compare lexicographically.
-        return comparison(str(self.key), str(other.key))
+        if is_int(self.key) != is_int(other.key):
+          # An int against a str: ints sort before strs. (Comparing the texts
+          # would make `'-1' < -10 < -1` while `'-1'` and `-1` tie, which is
+          # not an order.)
+          return comparison(is_str(self.key), is_str(other.key))
+        # Both are strs. Compare lexicographically.
+        return comparison(self.key, other.key)
       # One or both is a custom key. Delegate comparison to its magic methods.
       return comparison(self.key, other.key)
 
